@@ -24,6 +24,7 @@ typedef struct fc_ctx {
 	int variant;         /* descriptor-specific sub-case chosen by gen */
 	int no_rng;          /* FC_RNG(c) yields a null generator */
 	const char* damage;  /* set by a call that found the library in a damaged state after a failed call (C09 "errors, not damage") */
+	const char* claim;   /* set by a call whose self-check found what C07 itself forbids: a result that points outside the caller's buffer, or an output reported but never written */
 } fc_ctx;
 
 octet* fc_pub(fc_ctx* c, size_t n);    /* public input, exact size, from c->rng */
